@@ -132,7 +132,7 @@ def run_scenario(sc):
     t0 = time.time()
     try:
         r = subprocess.run([exe(prog), str(seed), str(nthr), str(ms), str(flags)], stdout=subprocess.PIPE, stderr=subprocess.PIPE,
-                           text=True, timeout=15 + 4 * ms / 1000, env=env, errors="replace")
+                           text=True, timeout=90 + 4 * ms / 1000, env=env, errors="replace")
         out, err, rc = r.stdout, r.stderr, r.returncode
     except subprocess.TimeoutExpired as e:
         out = e.stdout if isinstance(e.stdout, str) else (e.stdout or b"").decode(errors="replace")
